@@ -33,7 +33,7 @@ Sig == [ n \in {} |-> <<>> ]
   @@ ("std::math::Calc" :> <<Num, {"+", "/", "%", "^", "PAR"}, Num>>) @@ ("std::math::LessThan" :> <<Num, Num>>) @@ ("std::math::GreaterThan" :> <<Num, Num>>)
   @@ ("std::math::HexEncode" :> <<Num>>) @@ ("std::math::HexDecode" :> <<Num \cup {"0x", "0xzz"}>>) @@ ("std::semver::IsNewer" :> <<{"SEMVER", "W", "E", "1"}, {"SEMVER", "W", "E"}>>)
   @@ ("std::semver::Parse" :> <<{"SEMVER", "W", "E", "1", "MB"}>>) @@ ("std::json::Parse" :> <<{"COLL", "JSON", "W"}, {"JSON", "QT", "W", "E", "[", "{\"a\":"}>>)
-  @@ ("std::json::Encode" :> <<{"COLL", "VAR"}, Handle \cup {"VAR", "NOVAR"}>>) @@ ("std::fs::TempFile" :> <<{"W", "SEPEXT", "E", "MB", "SP"}>>)
+  @@ ("std::json::Encode" :> <<{"COLL", "VAR", "OBJ"}, Handle \cup {"VAR", "NOVAR", "OBJ"}>>) @@ ("std::fs::TempFile" :> <<{"W", "SEPEXT", "E", "MB", "SP"}>>)
   @@ ("std::env::SetVar" :> <<{"KV", "W", "E", "MB", "SP", "--handle"}, Text \cup Handle>>) @@ ("std::env::UnsetVar" :> <<{"KV", "W", "E", "MB", "SP"}>>)
   @@ ("std::fs::CopyPath" :> <<Path, Path>>) @@ ("std::fs::MovePath" :> <<Path, Path>>) @@ ("std::fs::DeletePath" :> <<{"-r", "F", "D"}, Path>>)
   @@ ("std::fs::SetMode" :> <<Num \cup {"777", "888"}, Path>>) @@ ("std::fs::WriteText" :> <<Path, Text>>) @@ ("std::fs::WriteBytes" :> <<Path, Handle>>)
